@@ -125,7 +125,14 @@ def excel_rows(source_path, sheet=1):
 
     location = errors.Location(source_path, has_cell=True)
     try:
-        with xlrd.open_workbook(source_path) as book:
+        book = xlrd.open_workbook(source_path)
+    except EnvironmentError:
+        raise
+    except Exception as error:
+        # Damaged files can cause all sorts of errors deep inside of xlrd, for example zlib.error or KeyError.
+        raise errors.DataFormatError("cannot read Excel file: %s" % error, location)
+    try:
+        with book:
             sheet = book.sheet_by_index(0)
             datemode = book.datemode
             for y in range(sheet.nrows):
